@@ -135,7 +135,9 @@ func (e *Extractor) RegisterFontsFromResources(resources core.Dict, resolver fun
 		var parsedFont *font.Font
 
 		switch string(subtypeName) {
-		case "Type1":
+		case "Type1", "MMType1", "Type3":
+			// (Multiple Master and Type 3 fonts are simple fonts with the
+			// same /Encoding, /Widths and /ToUnicode entries)
 			if t1Font, err := font.NewType1Font(fontDict, resolver); err == nil {
 				parsedFont = t1Font.Font
 			}
